@@ -424,8 +424,9 @@ func c19r2(c *core.Ctx) {
 			k, cal, _ := m.Callee(call)
 			return k == core.CallStatic && a.LockTests[cal]
 		},
-		"Memory":     func(e ast.Expr) bool { return m.ExprString(e) == "memory" },
-		"MemoryUsed": func(e ast.Expr) bool { return m.ExprString(e) == "memoryUsed" },
+		// the sums are accumulated in locals (checked below: every loop over the archetypes adds both figures)
+		"Memory":     func(e ast.Expr) bool { return identOf(m.StripConv(e)) != nil },
+		"MemoryUsed": func(e ast.Expr) bool { return identOf(m.StripConv(e)) != nil },
 	}
 	got := map[string]bool{}
 	core.InspectNoLits(f.Body, func(n ast.Node) bool {
@@ -449,21 +450,84 @@ func c19r2(c *core.Ctx) {
 			c.Violation("C19/R2", "World."+k, c.At(f.Pos()), "figure is never assigned")
 		}
 	}
-	// memory sums: both archetype loops add archStats.Memory / MemoryUsed
-	adds := 0
+	// memory sums: every loop (in the statistics function or in a helper of the world that it calls) that produces or
+	// updates per-archetype statistics adds that archetype's Memory and MemoryUsed to an accumulator
+	scope := []*core.Func{f}
 	core.InspectNoLits(f.Body, func(n ast.Node) bool {
-		if as, ok := n.(*ast.AssignStmt); ok && as.Tok == token.ADD_ASSIGN && len(as.Lhs) == 1 && len(as.Rhs) == 1 {
-			l, r := m.ExprString(as.Lhs[0]), m.ExprString(as.Rhs[0])
-			if (l == "memory" && strings.HasSuffix(r, ".Memory")) || (l == "memoryUsed" && strings.HasSuffix(r, ".MemoryUsed")) {
-				adds++
+		if call, ok := n.(*ast.CallExpr); ok {
+			if k, cal, _ := m.Callee(call); k == core.CallStatic && cal != nil && cal.Body != nil && cal.Recv == f.Recv && cal != f {
+				scope = append(scope, cal)
 			}
 		}
 		return true
 	})
-	if adds == 4 {
-		c.OK("C19/R2", "World memory sums", c.At(f.Pos()), "both the update loop and the append loop add each archetype's Memory and MemoryUsed")
+	isArchStatsCall := func(call *ast.CallExpr) bool {
+		k, cal, _ := m.Callee(call)
+		if k != core.CallStatic || cal == nil || cal.Recv != "archetype" || cal.Sig == nil {
+			return false
+		}
+		if cal.Sig.Results().Len() == 1 && strings.HasSuffix(cal.Sig.Results().At(0).Type().String(), "stats.Archetype") {
+			return true
+		}
+		for i := 0; i < cal.Sig.Params().Len(); i++ {
+			if p, ok := cal.Sig.Params().At(i).Type().(*types.Pointer); ok && strings.HasSuffix(p.Elem().String(), "stats.Archetype") {
+				return true
+			}
+		}
+		return false
+	}
+	loops, adds := 0, 0
+	for _, g := range scope {
+		core.InspectNoLits(g.Body, func(n ast.Node) bool {
+			var body *ast.BlockStmt
+			switch l := n.(type) {
+			case *ast.ForStmt:
+				body = l.Body
+			case *ast.RangeStmt:
+				body = l.Body
+			default:
+				return true
+			}
+			calls := false
+			mem, used := false, false
+			ast.Inspect(body, func(x ast.Node) bool {
+				switch y := x.(type) {
+				case *ast.CallExpr:
+					if isArchStatsCall(y) {
+						calls = true
+					}
+				case *ast.AssignStmt:
+					if y.Tok == token.ADD_ASSIGN && len(y.Rhs) == 1 {
+						if sel, ok := ast.Unparen(m.Inline(y.Rhs[0])).(*ast.SelectorExpr); ok {
+							if tv, ok := m.Info.Types[sel.X]; ok && strings.HasSuffix(strings.TrimPrefix(tv.Type.String(), "*"), "stats.Archetype") {
+								switch sel.Sel.Name {
+								case "Memory":
+									mem = true
+								case "MemoryUsed":
+									used = true
+								}
+							}
+						}
+					}
+				}
+				return true
+			})
+			if calls {
+				loops++
+				if mem {
+					adds++
+				}
+				if used {
+					adds++
+				}
+			}
+			return true
+		})
+	}
+	if loops > 0 && adds == 2*loops {
+		c.OK("C19/R2", "World memory sums", c.At(f.Pos()), fmt.Sprintf("each of the %d loops that produce or update archetype statistics adds the archetype's Memory and MemoryUsed", loops))
 	} else {
-		c.Violation("C19/R2", "World memory sums", c.At(f.Pos()), fmt.Sprintf("expected 4 additions of per-archetype memory figures (2 loops x 2 figures), found %d", adds))
+		c.Violation("C19/R2", "World memory sums", c.At(f.Pos()), fmt.Sprintf("%d loops produce or update per-archetype statistics, but only %d of the %d additions of their Memory / MemoryUsed figures are present", loops, adds, 2*loops))
 	}
 }
 
